@@ -785,15 +785,19 @@ def run(ctx):
     latk = lattice(k_lat)
     if quick:
         latk = [c for c in latk if ndev(c) <= 2 or not has_option(c)]
+    else:
+        # thorough: the notation axes (same field by construction, they only change how the call is written down) are combined with
+        # at most one other deviation here too; every other option deviation with up to two
+        latk = [c for c in latk if ndev(c) <= 2 or not is_notation(c)]
     ctx.space('config.lattice.k<=1', len(lat1))
-    ctx.space(f'config.lattice.k<={k_lat}' + ('(option deviations k<=2)' if quick else ''), len(latk))
+    ctx.space(f'config.lattice.k<={k_lat}' + ('(option deviations k<=2)' if quick else '(notation deviations k<=2)'), len(latk))
     ctx.rule(f'C03: real blocks chained DAC->MZM(CW)->[DM|FIBER gamma=0]->PD(ase-only, noise-free field)->SAMPLER(sps//2)->'
              f'threshold midway between the received level means; oracle = the transmitted word, exact equality. '
              f'Deviation lattice over {len(AXES)} axes ' + '; '.join(f'{a}{v}' for a, v in AXES) +
              f' (points with PD BW >= fs/2 dropped; |beta2*L| = {DISP_FRACTION*100:.1f}% of T_slot^2). '
              f'link.words: all {2**nw-2} words of length {nw} with both symbols x the {len(lat1)} configurations with <= 1 deviation. '
              f'link.lattice: 8 fixed words x the {len(latk)} configurations with <= {k_lat} deviations' +
-             (f' (<= 2 when one is an option deviation {sorted(OPTION_VALUES)})' if quick else '') + ('. ' if quick else '; link.words8.k=2: all 254 words of length 8 x the configurations with exactly 2 deviations. ') +
+             (f' (<= 2 when one is an option deviation {sorted(OPTION_VALUES, key=str)})' if quick else f' (<= 2 when one is on a notation axis {NOTATION_AXES})') + ('. ' if quick else '; link.words8.k=2: all 254 words of length 8 x the configurations with exactly 2 deviations. ') +
              f'ook.dsp (words of 32/64/127 slots, PRBS7 and seeded-random) and ppm.dsp (M in 2,4,8,16 x data words ramp/PRBS7/seeded of '
              f'16 symbols + ragged words of 16 symbols + r bits, r in {{1, log2(M)-1}}, soft and hard with estimated threshold): the '
              f'configurations with <= {1 if quick else 2} deviations (option deviations alone) plus '
